@@ -243,6 +243,10 @@ def update_connectivity(
     # By constructing the array using new_fill_value where needed,
     # setting the dtype explicitly, and adding the _FillValue attribute,
     # xarray will cooperate.
+    # Entries that refer to an excluded element, such as a neighbouring face
+    # outside of the clipped region, become missing entries.
+    column_values = numpy.ma.filled(column_values, fill_value)
+
     include_row = ~numpy.ma.getmask(row_indexes)
     raw_values = numpy.array([
         [
